@@ -17,6 +17,7 @@ import (
 	"runtime/debug"
 	"sort"
 	"strconv"
+	"strings"
 	"time"
 )
 
@@ -285,6 +286,7 @@ func doSearch(eng Engine, res *Result, name, prop, tier, variant string) {
 	deadline := time.Now().Add(budget)
 	sigs := map[uint64]struct{}{}
 	seenKeys := map[string]bool{}
+	leaked := 0
 	// The collector runs only between runs: sync.Pool contents (and anything
 	// else tied to GC cycles) must not change in the middle of a run, or a run
 	// would not be a function of its plan. The memory limit is a safety net.
@@ -321,6 +323,13 @@ func doSearch(eng Engine, res *Result, name, prop, tier, variant string) {
 		}
 		if o.Inconcl {
 			res.Inconcl++
+			if strings.HasPrefix(o.Note, "HARNESS/bubble") || strings.HasPrefix(o.Note, "HARNESS/stuck") {
+				// goroutines of such a run stay blocked in a dead bubble: retire the
+				// process before they add up
+				if leaked++; leaked > 150 {
+					break
+				}
+			}
 			if len(res.InconclNotes) < 5 {
 				res.InconclNotes = append(res.InconclNotes, fmt.Sprintf("run_seed=%d %s", rs, o.Note))
 			}
